@@ -38,3 +38,18 @@ package domain_matcher
 //@     invariant forall k int {b[k]} :: 0 <= k && k < $iter ==> b[k] == t()[len(t()) - 1 - k]
 //@     invariant forall k int {b[k]} :: len(b) - $iter <= k && k < len(b) ==> b[k] == t()[len(t()) - 1 - k]
 //@     invariant forall k int {b[k]} :: $iter <= k && k < len(b) - $iter ==> b[k] == t()[k]
+
+// "Rule programs beyond the supported size are rejected with an error, never a crash": AddSet takes
+// any bit index; the only things it may rely on are the equal lengths the constructor establishes.
+//@ func NewAhocorasickSlimtrie
+//@   requires bitLength >= 0
+//@   ensures result != nil && fresh(result)
+//@   ensures len(result.toBuildAc) == bitLength && len(result.toBuildTrie) == bitLength && len(result.regexp) == bitLength
+//@   ensures len(result.ac) == bitLength && len(result.trie) == bitLength
+//@   ensures result.err == nil
+
+//@ func (*AhocorasickSlimtrie).AddSet
+//@   requires n != nil
+//@   requires len(n.toBuildAc) == len(n.toBuildTrie) && len(n.regexp) == len(n.toBuildTrie)
+//@   dyncalls noeffect
+//@   modifies *
